@@ -69,11 +69,21 @@ func (f *DictionaryCompoundFilter) decompose(token *analysis.Token) []*analysis.
 			}
 			_, inDict := f.dict[string(runes[i:i+j])]
 			if inDict {
+				// offsets are counted in runes of the (possibly rewritten) term:
+				// keep them inside the source token
+				start := token.Start + i
+				end := token.Start + i + j
+				if start > token.End {
+					start = token.End
+				}
+				if end > token.End {
+					end = token.End
+				}
 				newtoken := analysis.Token{
 					Term:         []byte(string(runes[i : i+j])),
 					PositionIncr: 0,
-					Start:        token.Start + i,
-					End:          token.Start + i + j,
+					Start:        start,
+					End:          end,
 					Type:         token.Type,
 					KeyWord:      token.KeyWord,
 				}
